@@ -5,6 +5,7 @@ package snaps
 import (
 	"fmt"
 	"os"
+	"path/filepath"
 	"strconv"
 
 	"github.com/gkampitakis/go-snaps/internal/vxrt"
@@ -101,4 +102,77 @@ func asciiOnly(s string) bool {
 		ok = vxrt.And(ok, s[i] < 0x80)
 	}
 	return ok
+}
+
+// ---- shared scenario helpers
+
+const (
+	kindSnapshot = 0
+	kindYAML     = 1
+	kindJSON     = 2
+)
+
+// doCall issues one Match* call of the given kind through c.
+func doCall(c *Config, t *mockT, kind int, text string) {
+	switch kind {
+	case kindSnapshot:
+		c.MatchSnapshot(t, text)
+	case kindYAML:
+		c.MatchYAML(t, text)
+	default:
+		c.MatchJSON(t, text)
+	}
+}
+
+// frame renders one well-formed entry of a snapshot file.
+func frame(id, body string) string { return "\n[" + id + "]\n" + body + "\n---\n" }
+
+// hasLine: text has a whole line equal to line (built without branching).
+func hasLine(text, line string) bool {
+	n, m := len(text), len(line)
+	found := false
+	for p := 0; p+m <= n; p++ {
+		startOK := p == 0
+		if p > 0 {
+			startOK = text[p-1] == '\n'
+		}
+		endOK := p+m == n
+		if p+m < n {
+			endOK = text[p+m] == '\n'
+		}
+		found = vxrt.Or(found, vxrt.And(vxrt.And(startOK, endOK), vxrt.Eq(text[p:p+m], line)))
+	}
+	return found
+}
+
+// symText returns a symbolic text of length 0..n that is a legal formatted
+// value for MatchSnapshot in the model (no CR at end of line, no tabwriter
+// control bytes) and, if ascii, has only bytes below 0x80.
+func symText(label string, n int, ascii bool) string {
+	s := vxrt.Text(label, vxrt.Len(label+"-len", 0, n))
+	vxrt.Assume(noCRAtEOL(s))
+	vxrt.Assume(plainText(s))
+	if ascii {
+		vxrt.Assume(asciiOnly(s))
+	}
+	return s
+}
+
+// noTerminatorLine: body has no whole line "---" (a well-formed frame body is
+// stored escaped, so it never has one).
+func noTerminatorLine(body string) bool { return vxrt.Not(hasLine(body, "---")) }
+
+func os_MkdirAll(dir string) { os.MkdirAll(dir, os.ModePerm) }
+
+func writeFile(path, content string) {
+	os.MkdirAll(filepath.Dir(path), os.ModePerm)
+	os.WriteFile(path, []byte(content), os.ModePerm)
+}
+
+func readFile(path string) string {
+	b, err := os.ReadFile(path)
+	if err != nil {
+		return "<missing>"
+	}
+	return string(b)
 }
